@@ -104,7 +104,8 @@ def gen_case(rng):
     for i, c in enumerate(chunks):
         steps.append("d:" + c.hex())
         if i + 1 == stop_after:
-            steps += ["eof", "sleep:%d" % (4 * TOL), "eof", "eof", "eof", "eof"]
+            kinds = rng.choice([["eof"] * 5, ["timeout"] * 5, ["eof", "timeout", "eof", "timeout", "eof"], ["timeout", "eof", "timeout", "eof", "timeout"]])
+            steps += [kinds[0], "sleep:%d" % (4 * TOL)] + kinds[1:]
     return ";".join(steps), TOL, "silent-beyond-tolerance", sum(len(c) for c in chunks[:stop_after])
 
 
@@ -145,7 +146,7 @@ def run(res, args):
                                   "delivered messages differ from those of the uninterrupted data received before the stop")
             if parts["closed"] != "1":
                 res.add_violation(dict(case=c[:300], kind=cls), "the output channel was not closed after the handler stopped")
-            want_err = {"resume": ("eof",), "zero-tolerance": ("eof", "timeout"), "other-error": ("other",), "silent-beyond-tolerance": ("eof",)}[cls]
+            want_err = {"resume": ("eof",), "zero-tolerance": ("eof", "timeout"), "other-error": ("other",), "silent-beyond-tolerance": ("eof", "timeout")}[cls]
             if parts["err"] not in want_err:
                 res.add_violation(dict(case=c[:300], kind=cls, returned=parts["err"]), "the handler stopped for the wrong reason")
             if cls == "resume":
